@@ -210,6 +210,8 @@ func c12ConsumerFacts(l *lean) {
 		{"resolveInputDescriptorValuesShape", "auth/api/iam/s2s_vptoken.go", "resolveInputDescriptorValues", ""},
 		{"validateRegistrationShape", "discovery/module.go", "validateRegistration", "*Module"},
 		{"containsCredentialShape", "discovery/module.go", "containsCredential", ""},
+		{"clientRegistrationShape", "discovery/client.go", "findCredentialsAndBuildPresentation", "*clientRegistrationManager"},
+		{"clientActivateShape", "discovery/client.go", "activate", "*clientRegistrationManager"},
 		{"presenterBuildSubmissionShape", "vcr/holder/presenter.go", "buildSubmission", "presenter"},
 		{"formatsMatchShape", "vcr/credential/formats.go", "Match", "Formats"},
 		{"normalizeFormatShape", "vcr/credential/formats.go", "normalizeFormat", "Formats"},
